@@ -112,6 +112,14 @@ def rule_count_once(check):
         arm = tr.variant_known(p, ())
         arm = arm.split("::")[-1] if isinstance(arm, str) else "_"
         not_mod = any((hir.cond_call(c) or [None])[0] == "is_modified" and hir.cond_call(c)[3] is False for c in p.conds)
+        # the same test asked of the expression: `if let Some(e) = result.expr {..}` not taken (a result has an
+        # expression exactly when it is Modified - the TransformResult constructors, MODIFIED-HOOK/invariant)
+        for c in p.conds:
+            if c.get("t") == "pat" and c.get("scrut") is not None:
+                sc_ = hir.peel_transparent(c["scrut"])
+                v_ = str(hir.pat_variant(c["pat"])).split("::")[-1]
+                if sc_.get("k") == "Field" and sc_.get("field") == "expr" and "TransformResult" in (sc_.get("base_ty") or "") and ((v_ == "Some" and c["v"] is False) or (v_ == "None" and c["v"] is True)):
+                    not_mod = True
         if len(ts) > 1:
             check.bad(R, "%s/%s/two-transforms" % (R, arm), hir.loc(ts[1][1]["node"]), "two transforms on one path")
             continue
